@@ -5,7 +5,7 @@
    encryption (so CS1/CS2 on whole blocks run exactly plain CBC through them); every construction route
    builds the same model object; buffered CFB = the CFB recurrence = block-level CFB (C14_buffered_vs_block_cfb);
    on whole blocks the six stealing variants, both directions, are plain CBC / raw block encryption
-   with the CS3 exchange of the last two blocks (C14_cts_whole_blocks_*).  Not proved yet (covered by
+   with the CS3 exchange of the last two blocks (C14_cts_whole_blocks_enc, _dec).  Not proved yet (covered by
    correspondence and the implementation-side predicates of gen/props/c14.py only): one-shot CFB
    (Plumbing.async_inout) = block CFB as a theorem; the OFB byte-level wrapper vs the block encryptor. *)
 From BM Require Import BlockModes Spec BlockModes_proofs Plumbing Toy Ints Ctr Belt Stream Cts Cts_mem Cts_spec Cts_cs_proofs Cts_dec_proofs Stream_proofs Cts_proofs
